@@ -460,6 +460,18 @@ class Engine2:
             return r
         # user function with a body: evaluate with the argument ranges (depth-limited)
         avals = self._record_call(e, st)
+        ie = inline_expr(self.facts, e)
+        if ie is not None:
+            # a helper that is one formula: read as the formula, with its parameters as fresh variables holding the argument values
+            s2 = st.copy()
+            for (p_, a_), av in zip(ie[1], avals):
+                if av is not None:
+                    s2.env[('v', p_['id'])] = convert(av, p_['t']) if trange(p_['t']) else av
+                else:
+                    s2.env.pop(('v', p_['id']), None)
+            r = self.ev(ie[0], s2)
+            if r is not None:
+                return r
         sm = getattr(self, 'summaries', None)
         if sm and (name in sm or sn in sm):
             r = (sm.get(name) or sm.get(sn))(self, e, avals)
@@ -1230,6 +1242,21 @@ class Engine2:
                 bkeys, _ = self._assigned({'b': body})
                 if lkey is not None and up and lkey not in bkeys:
                     iv = lkey
+        # the same loop written as `while(i < N) { ..; ++i; }`: i is written exactly once in the body, by an increment
+        if iv is None and cond is not None and inc is None and k == 'WhileStmt':
+            c = strip_keep(cond)
+            if c.get('k') == 'BinaryOperator' and c['op'] in ('<', '<=', '!='):
+                lkey = self.key_of(c['l'])
+                if lkey is not None:
+                    writes = []
+                    for x in walk(body):
+                        ap = assign_parts_raw(x) if isinstance(x, dict) else None
+                        if ap and self.key_of(ap[0]) == lkey:
+                            writes.append(('+=' if (ap[2] == '+=' and (const_of(ap[1]) or 0) > 0) else 'other'))
+                        elif isinstance(x, dict) and is_incdec(x) and self.key_of(x['e']) == lkey:
+                            writes.append('++' if x['op'] == '++' else 'other')
+                    if len(writes) == 1 and writes[0] in ('++', '+='):
+                        iv = lkey
         # loop invariant by iteration: join(entry, state after one more iteration) until stable; widen (havoc) otherwise
         hst = None
         if not getattr(self, '_in_fix', False):
